@@ -443,3 +443,52 @@ pub fn plan_class<S: ShortGroupSignatureScheme>(q: &Presentation<S>, schema: &Pr
     }
     (if ch.is_some() { "plan-ok" } else { "plan-err" }, r)
 }
+
+/// structural description of (credentials, schema) for the model of `Presentation::create` (`cr.ok`);
+/// `None` when a statement is stored under a key that differs from its own id (the model has one id)
+pub fn create_line<S: ShortGroupSignatureScheme>(credentials: &IndexMap<String, PresentationCredential<S>>, schema: &PresentationSchema<S>) -> Option<String> {
+    let j = |v: Vec<String>, sep: &str| if v.is_empty() { "-".to_string() } else { v.join(sep) };
+    let mut creds = vec![];
+    for (k, c) in credentials {
+        match c {
+            PresentationCredential::Signature(cred) => {
+                let cs: Vec<String> = cred
+                    .claims
+                    .iter()
+                    .map(|c| format!("{}:{}", sc_hex(&c.to_scalar()), if let ClaimData::Number(n) = c { n.value.to_string() } else { "-".to_string() }))
+                    .collect();
+                creds.push(format!("{}/S/{}", hx(k), j(cs, ",")));
+            }
+            PresentationCredential::Membership(_) => creds.push(format!("{}/M", hx(k))),
+        }
+    }
+    let oi = |o: Option<isize>| o.map(|x| x.to_string()).unwrap_or("-".to_string());
+    let mut stmts = vec![];
+    for (key, st) in &schema.statements {
+        if *key != st.id() {
+            return None;
+        }
+        let t = match st {
+            Statements::Signature(ss) => {
+                let kv = serde_json::to_value(&ss.issuer.verifying_key).unwrap_or(Value::Null);
+                let n_key = kv["y"].as_array().map(|a| a.len()).unwrap_or(0);
+                format!(
+                    "S/{}/{}/{}/{}",
+                    hx(&ss.id),
+                    j(ss.disclosed.iter().map(|l| hx(l)).collect(), ","),
+                    j(ss.issuer.schema.claim_indices.iter().map(|l| hx(l)).collect(), ","),
+                    n_key
+                )
+            }
+            Statements::Equality(e) => format!("E/{}/{}", hx(&e.id), j(e.ref_id_claim_index.iter().map(|(a, b)| format!("{}:{}", hx(a), b)).collect(), ",")),
+            Statements::Revocation(x) => format!("X/revocation/{}/{}/{}", hx(&x.id), hx(&x.reference_id), x.claim),
+            Statements::Commitment(x) => format!("X/commitment/{}/{}/{}", hx(&x.id), hx(&x.reference_id), x.claim),
+            Statements::VerifiableEncryption(x) => format!("X/verenc/{}/{}/{}", hx(&x.id), hx(&x.reference_id), x.claim),
+            Statements::VerifiableEncryptionDecryption(x) => format!("X/ved/{}/{}/{}", hx(&x.id), hx(&x.reference_id), x.claim),
+            Statements::Membership(x) => format!("X/membership/{}/{}/{}", hx(&x.id), hx(&x.reference_id), x.claim),
+            Statements::Range(x) => format!("R/{}/{}/{}/{}/{}/{}", hx(&x.id), hx(&x.reference_id), hx(&x.signature_id), x.claim, oi(x.lower), oi(x.upper)),
+        };
+        stmts.push(t);
+    }
+    Some(format!("cr.ok {} {}", j(creds, ";"), j(stmts, ";")))
+}
